@@ -352,7 +352,7 @@ class Gen:
         fn = g.choice(menu)
         a = {"A": A}
         st = {"op": "call", "fn": fn, "args": a}
-        kw_iter = {"max_iters": g.choice([1, 2, 5, 50]), "tol": g.choice([1e-6, 1e-3])}
+        kw_iter = {"max_iters": g.choice([0, 1, 2, 5, 50]), "tol": g.choice([1e-6, 1e-3, 2.0])}
         if pbar:
             kw_iter["pbar"] = True
         if fn in ("matvec", "rmatvec"):
@@ -1207,6 +1207,18 @@ def matrix_programs_c18():
                             ("solve_cg", call("solve", A=S("mp"), b=arr([cols], "f8", 56), alg="CG", akw={"max_iters": 4},
                                               x0=arr([cols], "f8", 57))),
                             ("solve_chol", call("solve", A=S("mp"), b=arr([cols, 2], "f8", 58), alg="Cholesky")),
+                            # degenerate parameters: zero iterations / tolerance met at once, caller-supplied guess
+                            ("solve_cg_zero_iters", call("solve", A=S("mp"), b=arr([cols], "f8", 56), alg="CG",
+                                                         akw={"max_iters": 0}, x0=arr([cols], "f8", 57))),
+                            ("cg_tol_met_at_once", call("cg", A=S("mp"), b=arr([cols, 2], "f8", 62), x0=arr([cols, 2], "f8", 63),
+                                                        tol=2.0, max_iters=5)),
+                            ("cg_zero_rhs", call("cg", A=S("mp"), b=arr([cols], "f8", 64, kind="zeros"),
+                                                 x0=arr([cols], "f8", 57), max_iters=3)),
+                            ("gmres_one_iter", call("gmres", A=S("mp"), b=arr([cols], "f8", 56), x0=arr([cols], "f8", 57),
+                                                    max_iters=1)),
+                            ("lanczos_one_iter", call("lanczos", A=S("mp"), v0=arr([cols], "f8", 59), max_iters=1)),
+                            ("power_iteration_zero", call("power_iteration", A=S("mp"), max_iter=0)),
+                            ("eig_all", call("eig", A=S("mp"), k=cols, which="SM")),
                             ("lanczos", call("lanczos", A=S("mp"), v0=arr([cols], "f8", 59), max_iters=3)),
                             ("sqrt_lanczos", call("unary_apply", A=S("mp"), f="sqrt", alg="Lanczos", akw={"max_iters": 3},
                                                   x=arr([cols], "f8", 60)))]:
